@@ -489,6 +489,23 @@ func c06Body(faulty bool) func(rc *RunCtx) {
 		n.DialFail = 0
 		n.SetMode(addrA, simnet.Up)
 		n.SetMode(addrB, simnet.Up)
+		if faulty && simrt.ChanceF(1, 3) {
+			// only one of the two configured servers comes back; the other one refuses from now
+			// on, and connections to it that are still open end. Whichever server the client
+			// used last, it must find the one that is up.
+			down, downName := addrA, "A"
+			if simrt.ChanceF(1, 2) {
+				down, downName = addrB, "B"
+			}
+			n.SetMode(down, simnet.Refusing)
+			d.Plan = append(d.Plan, "after the heal server "+downName+" stays down")
+			simrt.Probe("heal_leaves_one_server_down")
+			for _, c := range n.Conns {
+				if c.Addr == down && !c.PeerClosed && !c.PeerReset && !c.ClientClosed {
+					c.Reset("peer_reset_idle")
+				}
+			}
+		}
 		for _, c := range n.Conns {
 			c.ResetAt, c.CloseAt, c.SlowAt = -1, -1, -1
 			c.Unstall()
